@@ -445,9 +445,9 @@ func (r *run) jwtRS() {
 		cards := map[string][]cardKey{
 			"unknown-key":    s.ks[:last],
 			"renamed-key":    with(func(k *cardKey) { k.ID = "renamed" }),
-			"other-material": with(func(k *cardKey) { k.Key = fixedKeys[(ci+1)%3].Pub }),
-			"shadowed":       append([]cardKey{{ID: sk.ID, Type: rsaT, Alg: jwt.AlgRS256, Key: fixedKeys[(ci+1)%3].Pub, NVA: sk.NVA}}, s.ks...),
-			"shadowing":      append(append([]cardKey{}, s.ks...), cardKey{ID: sk.ID, Type: rsaT, Alg: jwt.AlgRS256, Key: fixedKeys[(ci+1)%3].Pub, NVA: sk.NVA}),
+			"other-material": with(func(k *cardKey) { k.Key = fixedKeys[(ci*2+1)%3].Pub }),
+			"shadowed":       append([]cardKey{{ID: sk.ID, Type: rsaT, Alg: jwt.AlgRS256, Key: fixedKeys[(ci*2+1)%3].Pub, NVA: sk.NVA}}, s.ks...),
+			"shadowing":      append(append([]cardKey{}, s.ks...), cardKey{ID: sk.ID, Type: rsaT, Alg: jwt.AlgRS256, Key: fixedKeys[(ci*2+1)%3].Pub, NVA: sk.NVA}),
 			"wrong-type":     with(func(k *cardKey) { k.Type = "ssh-ed25519" }),
 			"unparsable":     with(func(k *cardKey) { k.Key = "ssh-rsa AAAA" }),
 			"empty-key":      with(func(k *cardKey) { k.Key = "" }),
